@@ -572,7 +572,12 @@ def find_min(prog, run, fi, f, p_freq, p_order, tF, kinds, tables):
         return
     se = symidx.SymEval(prog, pf)
     ra = symidx.range_args(se, symidx.is_range(prog, pf, scan.iter))
-    ok = ra is not None and ra[0] == P.c(0) and ra[2] == P.c(1) and ".shape[1]" in repr(ra[1])
+    # the stop is ONE symbol, the column extent of a table (`<table>.shape[1]`) - an expression that merely contains one (shape[1] - 1, shape[1] // 2) is
+    # a recognised different range; anything else is not read
+    one_ext = ra is not None and len(ra[1].t) == 1 and all(v_ == 1 and len(k_) == 1 and k_[0][1] == 1 and k_[0][0].endswith(".shape[1]") for k_, v_ in ra[1].t.items())
+    ok = (ra[0] == P.c(0) and ra[2] == P.c(1) and one_ext) if ra is not None else None
+    if ra is not None and not ok and ".shape[1]" not in repr(ra[1]):
+        ok = None
     run.ob("R-first-order", fi.qual, "scan runs over all columns in ascending order", ok, f"range({', '.join(map(repr, ra)) if ra else '?'})", repr(ra), file=f, node=scan, config=cfg)
     var = scan.target.id
     okc = all(isinstance(acc.col, ast.Name) and acc.col.id == var for a, acc in items)
